@@ -188,7 +188,7 @@ def run():
         fails, keys, dis, n = [], set(), [], 0
         all_lines, all_expect, owners = [], [], []
         for name in MODEL_BASED:
-            for _ in range(5 if quick else 40):
+            for _ in range(C.T(5, 40)):
                 spec = gen_case(r, name, quick)
                 fl, lines, expect, key = run_case(spec)
                 fails += fl
